@@ -28,7 +28,9 @@ CONSTANTS
     DupCheck,       \* FALSE: repeated keys in one request are not refused
     StoreBeforeSign,\* FALSE: the signature is produced before the record is stored
     FaultIgnored,   \* TRUE: a failing store is ignored (the result stays APPROVED)
-    UnlockEarly     \* TRUE: keys are unlocked before the store
+    UnlockEarly,    \* TRUE: keys are unlocked before the store
+    StoreMode       \* "atomic" (shipped: one committed transaction replaces the record) | "deleteThenSet" (the old record is
+                    \* removed in one committed transaction and the new one written in a second)
 
 VARIABLES
     def,        \* Reqs -> the request's content (chosen from Catalog before it is invoked)
@@ -192,10 +194,27 @@ Check(r) ==
 NeedsStore(r, i) == IF Kind(r) = "atts" THEN TRUE ELSE res[r][i] = "APPROVED"
 MergeRec(old, new, r) == IF Kind(r) = "prop" THEN [old EXCEPT !.ps = new.ps] ELSE [old EXCEPT !.s = new.s, !.t = new.t]
 
+Erase(old, r) == IF Kind(r) = "prop" THEN [old EXCEPT !.ps = -1] ELSE [old EXCEPT !.s = -1, !.t = -1]
+\* design mutant StoreMode = "deleteThenSet": the write of a record is two durable steps; between them (and for a process that
+\* dies between them: for ever) the key has no record of that kind
+StoreDel(r) ==
+    /\ StoreMode = "deleteThenSet"
+    /\ pc[r] = "store" /\ idx[r] <= N(r) /\ ~closed /\ NeedsStore(r, idx[r])
+    /\ disk' = [disk EXCEPT ![Ent(r, idx[r]).k] = Erase(@, r)]
+    /\ Goto(r, "storeSet")
+    /\ UNCHANGED <<def, mapLock, holder, idx, loc, res, nxt, sigs, released, order, faulted, crashes, faults, closed>>
+StoreSet(r) ==
+    /\ pc[r] = "storeSet"
+    /\ disk' = [disk EXCEPT ![Ent(r, idx[r]).k] = MergeRec(@, nxt[r][idx[r]], r)]
+    /\ idx' = [idx EXCEPT ![r] = idx[r] + 1]
+    /\ Goto(r, "store")
+    /\ UNCHANGED <<def, mapLock, holder, loc, res, nxt, sigs, released, order, faulted, crashes, faults, closed>>
+
 Store(r) ==
     /\ pc[r] = "store"
     /\ idx[r] <= N(r)
     /\ (~closed \/ ~NeedsStore(r, idx[r]))
+    /\ (StoreMode = "atomic" \/ ~NeedsStore(r, idx[r]))
     /\ disk' = IF NeedsStore(r, idx[r])
                  THEN [disk EXCEPT ![Ent(r, idx[r]).k] = MergeRec(@, nxt[r][idx[r]], r)]
                  ELSE disk
@@ -296,7 +315,7 @@ CloseStore ==
     /\ UNCHANGED <<def, disk, mapLock, holder, pc, idx, loc, res, nxt, sigs, released, order, faulted, crashes, faults>>
 
 Step(r) == \/ Choose(r) \/ Invoke(r) \/ PreCheckFail(r) \/ Validate(r) \/ PreLock(r) \/ LockNext(r) \/ PostLock(r)
-           \/ Fetch(r) \/ FetchFail(r) \/ FetchClosed(r) \/ Check(r) \/ Store(r) \/ StoreFail(r) \/ StoreClosed(r) \/ StoreDone(r)
+           \/ Fetch(r) \/ FetchFail(r) \/ FetchClosed(r) \/ Check(r) \/ Store(r) \/ StoreDel(r) \/ StoreSet(r) \/ StoreFail(r) \/ StoreClosed(r) \/ StoreDone(r)
            \/ Unlock(r) \/ Sign(r) \/ SignFail(r) \/ Reply(r) \/ EarlySign(r)
 
 AllEnded == \A r \in Reqs : pc[r] \in {"done", "dead"}
